@@ -1,7 +1,7 @@
 (* C09 -- loss detection is sound and in-flight bookkeeping is exact; RTT / PTO bounds.
    Property theorems only; each is closed by [exact] of a lemma proved in proofs/. *)
 From SQ Require Import lib.Base gen.Gen_C09 model.RecTime.
-From SQ Require model.Rtt model.Loss model.Pto model.Recovery proofs.LossProofs proofs.RttProofs proofs.PtoProofs proofs.RecoveryProofs.
+From SQ Require model.Rtt model.Loss model.Pto model.Recovery proofs.LossProofs proofs.RttProofs proofs.PtoProofs proofs.RecoveryProofs proofs.RecoveryJudgeProofs.
 Local Open Scope N_scope.
 
 (* ---------------- generated constants carry the values the property names ---------------- *)
@@ -232,6 +232,18 @@ Theorem C09_reach_winv : forall sp cf mad st ops, Forall RecoveryProofs.no_disca
   RecoveryProofs.winv (RecoveryProofs.reach (Recovery.minit sp cf mad st) ops).
 Proof. exact RecoveryProofs.reach_winv. Qed.
 
+(* the executable manager judgement: with one timer granularity of slack on a lost packet's age it
+   accepts every run of the model (histories without a space discard) -- partial, because ... *)
+Theorem C09_manager_judge_model_partial : forall case, RecoveryJudgeProofs.no_discard_case case = true ->
+  Recovery.judge_tol case (Recovery.run case) = true.
+Proof. exact RecoveryJudgeProofs.judge_tol_run. Qed.
+
+(* ... the judgement that states the property (no slack) rejects the model's own run on the early-loss
+   input (RTT 500 us, packet 1 declared lost 501 us after it was sent, one below the largest acknowledged) *)
+Theorem C09_manager_judge_strict_refuted : exists case,
+  Recovery.judge case (Recovery.run case) = false /\ Recovery.judge_tol case (Recovery.run case) = true.
+Proof. exact RecoveryJudgeProofs.judge_strict_refuted. Qed.
+
 (* non-vacuity *)
 Example C09_example :
   Loss.run [100000000; 0; 0; 0; 1000; 0; 1; 113500; 0]%Z = [100000000; 100000000; 112500000; 1; 0]%Z
@@ -286,3 +298,5 @@ Print Assumptions C09_lost_are_removed.
 Print Assumptions C09_ack_lost_only_if_rfc_partial.
 Print Assumptions C09_timeout_lost_only_if_rfc_partial.
 Print Assumptions C09_reach_winv.
+Print Assumptions C09_manager_judge_model_partial.
+Print Assumptions C09_manager_judge_strict_refuted.
